@@ -219,7 +219,7 @@ pub fn run(cfg: &RunCfg) -> (PropMeta, ShardOut, Map<String, Value>) {
     }
     let v = spec_forms(&mut out);
     push(&mut out, v, json!({"kind":"spec-forms"}));
-    let n = cfg.n(60_000, 2_000_000);
+    let n = cfg.n(60_000, 12_000_000);
     let per = (n as usize + cfg.threads - 1) / cfg.threads;
     let seed = cfg.seed;
     let sampled = shards(cfg.threads, |shard| {
